@@ -496,9 +496,9 @@ func decodeResponseBody[R any](simpleAPISelf *SimpleAPIDef, response *APIRespons
 }
 
 func (simpleAPISelf *SimpleAPIDef) replacePathParams(relativeURL string, pathParam PathParam) string {
-	finalURL := relativeURL
+	oldNew := make([]string, 0, len(pathParam)*2)
 	for k, v := range pathParam {
-		finalURL = strings.ReplaceAll(relativeURL, fmt.Sprintf("{%s}", k), fmt.Sprintf("%v", v))
+		oldNew = append(oldNew, fmt.Sprintf("{%s}", k), fmt.Sprintf("%v", v))
 	}
-	return simpleAPISelf.BaseURL + "/" + finalURL
+	return simpleAPISelf.BaseURL + "/" + strings.NewReplacer(oldNew...).Replace(relativeURL)
 }
